@@ -125,7 +125,7 @@ def gen_history(rng, kind, nops, with_clear, profile=None):
     """One history: list of ops.  op = (name, key or None, value or None, slot or None)."""
     profile = profile or rng.choice(["grow", "churn", "sawtooth", "small", "same-size"])
     target = {"grow": rng.choice([300, 1000, 2500]), "churn": rng.choice([100, 400]), "sawtooth": rng.choice([200, 900]),
-              "small": rng.choice([6, 9, 20]), "same-size": rng.choice([120, 500])}[profile]
+              "small": rng.choice([6, 9, 20]), "same-size": 6 * 2 ** rng.choice([3, 3, 4, 5]) - 1}[profile]
     uni = universe(rng, kind, max(40, min(int(target * 2.2) + 30, 6000)))
     hashable = [k for k in uni if not k.unh]
     special = [k for k in uni if k.unh or not k.refl]
@@ -135,7 +135,7 @@ def gen_history(rng, kind, nops, with_clear, profile=None):
         for _ in range(rng.randint(3, 10)):
             k = rng.choice(uni)
             ops.append(rng.choice([("get", k, None, None), ("get1", k, None, None), ("del", k, None, None), ("len", None, None, None),
-                                   ("set", k, 1, None), ("clr", None, None, None), ("itn", None, None, "a"), ("itx", None, None, "a")]))
+                                   ("set", k, 1, None), ("clr", None, None, None), ("itn", None, None, "a")]))
             if ops[-1][0] == "itn":
                 ops.append(("itx", None, None, "a"))
     ops.append(("mk", None, rng.choice([0, 0, 0, 5, 8, 9, 14, 100, target]), None))
@@ -173,7 +173,7 @@ def gen_history(rng, kind, nops, with_clear, profile=None):
         if profile in ("sawtooth", "same-size"):
             if n >= target:
                 phase_up = False
-            elif n <= (target // 8 if profile == "sawtooth" else target * 2 // 3):
+            elif n <= (target // 8 if profile == "sawtooth" else target - max(6, target // 5)):
                 phase_up = True
         r = rng.random()
         if profile == "grow":
@@ -234,6 +234,94 @@ def gen_history(rng, kind, nops, with_clear, profile=None):
         ops.append(("get", k, None, None))
     return {"kind": kind, "profile": profile, "ops": ops,
             "hashkey": [rng.getrandbits(62) for _ in range(4)], "rand": [rng.getrandbits(32) for _ in range(rng.choice([0, 16, 200]))]}
+
+
+def gen_adversarial(rng, kind, binary, nops):
+    """History aimed at same-size growth: with the REAL hashes of the key universe (read from a probe run of the
+    prefix `mk` + lookups), fill one bucket after the other past 8 cells and delete again, so that overflow buckets
+    pile up (noverflow >= 2^B) while the load stays low; iterators run across the growth that follows."""
+    b = rng.choice([3, 3, 4])
+    uni = [k for k in universe(rng, kind, 2600) if not k.unh and k.refl]
+    seen_cls, uniq = set(), []
+    for k in uni:
+        if k.cls not in seen_cls:
+            seen_cls.add(k.cls)
+            uniq.append(k)
+    hist = {"kind": kind, "profile": "adversarial", "hashkey": [rng.getrandbits(62) for _ in range(4)],
+            "rand": [rng.getrandbits(32) for _ in range(8)], "ops": [("mk", None, {3: 30, 4: 60}[b], None)]}
+    hist["ops"] += [("get", k, None, None) for k in uniq]
+    rl, pre = real_lines_of(hist)
+    ra, _, _, _, _ = run_real(binary, rl)
+    buckets = {}
+    for i, k in enumerate(uniq):
+        if pre + 1 + i < len(ra):
+            hh = parse_real(ra[pre + 1 + i])[1]
+            try:
+                buckets.setdefault(int(hh, 16) % (1 << b), []).append(k)
+            except ValueError:
+                pass
+    ops = hist["ops"]
+    val = [0]
+    live = []
+    slots = set()
+
+    def it_step():
+        s = rng.choice("ab")
+        if s not in slots or rng.random() < 0.1:
+            slots.add(s)
+            ops.extend([("itn", None, None, s), ("itx", None, None, s)])
+        else:
+            ops.extend([("itx", None, None, s)] * rng.choice([1, 2, 4]))
+
+    def setk(k):
+        val[0] += 1
+        ops.append(("set", k, val[0], None))
+
+    while len(ops) < nops:
+        progressed = False
+        order = list(range(1 << b))
+        rng.shuffle(order)
+        for i in order:
+            ks = buckets.get(i, [])
+            if len(ks) < 9:
+                continue
+            take, buckets[i] = ks[:9], ks[9:]
+            progressed = True
+            for k in take:
+                setk(k)
+                if rng.random() < 0.15:
+                    it_step()
+            rng.shuffle(take)
+            for k in take[:8]:
+                ops.append(("del", k, None, None))
+                if rng.random() < 0.1:
+                    it_step()
+            live.append(take[8])
+        # noverflow has reached 2^B: the next insertion of a new key starts a same-size grow; walk through it
+        for _ in range(6 << b):
+            r = rng.random()
+            pool = [k for ks in buckets.values() for k in ks[:2]]
+            if r < 0.35 and pool:
+                k = rng.choice(pool)
+                for ks in buckets.values():
+                    if k in ks:
+                        ks.remove(k)
+                setk(k)
+                live.append(k)
+            elif r < 0.55 and live:
+                ops.append(("del", live.pop(rng.randrange(len(live))), None, None))
+            elif r < 0.7 and live:
+                ops.append(("get", rng.choice(live), None, None))
+            elif r < 0.75:
+                ops.append(("len", None, None, None))
+            else:
+                it_step()
+        if not progressed:
+            break
+    ops.append(("itn", None, None, "z"))
+    ops.extend([("itx", None, None, "z")] * (len(live) + 20))
+    ops.append(("len", None, None, None))
+    return hist
 
 
 def real_lines_of(hist):
@@ -395,8 +483,7 @@ def judge(hist, real_ans, pre):
                 bad.append((i, "itx answered " + ans))
                 continue
             if it["done"]:
-                bad.append((i, "range yields after it ended: " + ans))
-                continue
+                continue     # a range loop never calls Next again after the first !ok (z_map.go ends a loop when count == 0)
             kt, vt = ans.split(" ")
             kk = bytok.get(kt[2:])
             try:
@@ -575,6 +662,10 @@ def run(ctx, args):
                 h = gen_history(rng, kind, nops if j else nops // 2, with_clear,
                                 profile=["grow", "same-size", "sawtooth", "churn"][j] if j < 4 else None)
                 h["name"] = "%s/%d/%s" % (kind, j, h["profile"])
+                hists.append(h)
+            for j in range(1 if quick else 10):
+                h = gen_adversarial(rng, kind, binary, 2500 if quick else 8000)
+                h["name"] = "%s/adv%d" % (kind, j)
                 hists.append(h)
 
     total = 0
